@@ -377,3 +377,83 @@ func LargeDocs() []string {
 	out = append(out, nest)
 	return out
 }
+
+// NumberDocs: point documents over an alphabet of number spellings: 1..19
+// significant digits, decimal point at every position, exponent forms, signs,
+// leading/trailing zeros, and the literals around float64's 2^53 / 15-17
+// digit boundaries where a hand-written conversion would round differently
+// from a correctly rounded one. The alphabet is a fixed deterministic list.
+func NumberDocs() []string {
+	lits := []string{"0", "-0", "0.0", "-0.0", "1", "-1", "0.1", "0.30000000000000004", "0.9999999999999999", "0.99999999999999989",
+		"9.964311686859325", "-97.17058997262243", "9007199254740992", "9007199254740993", "9007199254740995", "90071992547409.93",
+		"123456789012345678", "1234567890123456789", "4.35", "2.675", "1.005", "8.41e21", "1e22", "1e23", "1.0E+2", "1E2", "1e-0", "0.1e1", "10e-1",
+		"2.2250738585072014e-308", "2.2250738585072011e-308", "5e-324", "4.9e-324", "1.7976931348623157e308", "179.99999999999997", "89.99999999999999",
+		"0.000001", "1e-7", "123456.789e3", "0.5", "0.25", "1.5", "100", "1e2", "1.0"}
+	x := uint64(0xC0FFEE)
+	next := func(n uint64) uint64 {
+		x = x*6364136223846793005 + 1442695040888963407
+		return (x >> 33) % n
+	}
+	for i := 0; i < 1500; i++ {
+		nd := int(next(19)) + 1
+		digits := make([]byte, nd)
+		for k := range digits {
+			digits[k] = byte('0' + next(10))
+		}
+		if digits[0] == '0' {
+			digits[0] = '9'
+		}
+		if i%3 == 0 && nd >= 16 {
+			// the band just above 2^53 with an odd last digit
+			copy(digits, "9007199254740993"[:min(nd, 16)])
+			digits[nd-1] = "13579"[next(5)]
+			digits[3] = byte('0' + next(10))
+		}
+		pos := int(next(uint64(nd + 1)))
+		lit := string(digits[:pos]) + "." + string(digits[pos:])
+		if pos == 0 {
+			lit = "0" + lit
+		}
+		if pos == nd {
+			lit = string(digits)
+		}
+		if next(4) == 0 {
+			lit += "e" + []string{"0", "1", "-1", "+2", "-3", "5", "-10"}[next(7)]
+		}
+		if next(2) == 0 {
+			lit = "-" + lit
+		}
+		lits = append(lits, lit)
+	}
+	var out []string
+	for i, l := range lits {
+		m := lits[(i*7+3)%len(lits)]
+		out = append(out, Obj("Point", `"coordinates":[`+l+`,`+m+`]`))
+		if i%5 == 0 {
+			out = append(out, Obj("LineString", `"coordinates":[[`+l+`,1],[2,`+m+`],[`+m+`,`+l+`]]`))
+			out = append(out, Obj("Polygon", `"coordinates":[[[`+l+`,0],[4,0],[4,`+m+`],[`+l+`,0]]]`))
+		}
+	}
+	return out
+}
+
+// MemberDocs: foreign member texts combining insignificant whitespace
+// (0..4 bytes, in earlier and later members) with string values that hold
+// escaped quotes, backslash runs and spaces, keys with characters that are
+// special in path languages, and duplicate keys.
+func MemberDocs() []string {
+	ws := []string{"", " ", "  ", " \n", "\t \r\n"}
+	strs := []string{`"plain"`, `"say \"hi there\" ok"`, `"ends with backslash \\"`, `"a\\\"b c"`, `"the \"old mill\" trail"`, `"\\\\ x \\"`, `"tab\there"`, `"\u0022quoted\u0022 text"`, `" lead and trail "`}
+	keys := []string{`"note"`, `"a.b"`, `"properties.x"`, `"*"`, `"#"`, `"k y"`, `"\u006eote"`, `""`}
+	var out []string
+	pt := Obj("Point", `"coordinates":[1.5,2.25]`)
+	for wi, w := range ws {
+		for si, s := range strs {
+			k := keys[(wi+si)%len(keys)]
+			out = append(out, Obj("Feature", `"geometry":`+pt, `"tags":[1,`+w+`2],"properties":{`+k+`:`+s+`}`))
+			out = append(out, Obj("LineString", `"coordinates":[[0,0],[1,1]]`, `"bbox":[0,0,1,`+w+`1],"title":`+s+`,`+k+`:{"x":`+w+s+w+`}`))
+			out = append(out, Obj("Feature", `"geometry":`+pt, k+`:`+s+`,"properties":{"a":`+w+`[`+s+`,`+w+s+`]},`+k+`:`+s))
+		}
+	}
+	return out
+}
